@@ -56,6 +56,9 @@ Definition W16 : N := 65536.
 Definition W32 : N := 4294967296.
 Definition W48 : N := 281474976710656.
 
+(* errors of the writer's validation (BinaryError::LimitExceeded{what} / InvalidNestedFunctionIndex) *)
+Inductive err_w := WLimit (what : N) | WNestedIdx.
+
 (* ------------------------------------------------------------------ writer *)
 Definition write_str16 (s : list N) : list N := le_bytes 2 (lenN s) ++ s.   (* len as u16: truncates *)
 
@@ -110,9 +113,42 @@ Fixpoint write_func (f : func) : list N :=
       ++ le_bytes 2 (lenN globals) ++ flat_map write_str16 globals
   end.
 
-Definition write (f : func) : list N :=
+Definition write_bytes (f : func) : list N :=
   MAGIC ++ le_bytes 2 VERSION ++ le_bytes 2 0 ++ le_bytes 4 (count_functions f) ++ le_bytes 4 0
   ++ write_func f.
+
+(* ---- check_function: what try_serialize refuses to write, in the code's order *)
+Definition lim_err (n lim what : N) : option err_w := if lim <? n then Some (WLimit what) else None.
+Fixpoint first_err (l : list (option err_w)) : option err_w :=
+  match l with [] => None | Some e :: _ => Some e | None :: r => first_err r end.
+Definition name_len (n : option (list N)) : N := match n with Some s => lenN s | None => 0 end.
+Definition wcheck_const (nn : N) (c : const) : option err_w :=
+  match c with
+  | CFunc i => if nn <=? i then Some WNestedIdx else None
+  | CStr s => lim_err (lenN s) WLIM_STRING_LEN 9
+  | _ => None
+  end.
+Fixpoint wcheck (d : N) (f : func) : option err_w :=
+  match f with
+  | Func name arity nregs _ consts code nested upvals lines globals =>
+      first_err
+        [ lim_err d WLIM_DEPTH 0;
+          lim_err (name_len name) WLIM_NAME_LEN 1;
+          lim_err (lenN consts) WLIM_CONSTS 2;
+          lim_err (lenN code) WLIM_CODE 3;
+          lim_err (lenN nested) WLIM_NESTED 4;
+          lim_err (lenN upvals) WLIM_UPVALS 5;
+          lim_err (lenN lines) WLIM_LINES 6;
+          lim_err (lenN globals) WLIM_GLOBALS 7;
+          first_err (map (fun g => lim_err (lenN g) WLIM_GLOBAL_NAME_LEN 8) globals);
+          first_err (map (wcheck_const (lenN nested)) consts);
+          first_err (map (wcheck (d + 1)) nested) ]
+  end.
+
+(* try_serialize *)
+Inductive wres := WOk (bs : list N) | WErr (e : err_w).
+Definition write (f : func) : wres :=
+  match wcheck 0 f with Some e => WErr e | None => WOk (write_bytes f) end.
 
 (* what the writer deliberately changes (and what the format does not store) *)
 Definition norm_name (n : option (list N)) : option (list N) :=
